@@ -52,6 +52,9 @@ def coq_type(t, version='1.0'):
             return '(TString Replace)'
         if n == 'xs:token':
             return '(TString Collapse)'
+        if n == 'xs:QName':
+            # only used as list item type with a catalogue of unprefixed NCNames, on which QName and token agree
+            return '(TString Collapse)'
         if n == 'xs:date':
             return '(TDate %s)' % ('true' if version == '1.1' else 'false')
         raise KeyError(n)
@@ -418,9 +421,11 @@ def rand_restriction(rng, depth=2):
                     fs.append((n, rng.choice([0, 1, 2, 3, 5])))
             return fs
     elif kind == 'list':
-        item = ('builtin', rng.choice(['xs:integer', 'xs:byte', 'xs:boolean', 'xs:token']))
+        item = ('builtin', rng.choice(['xs:integer', 'xs:byte', 'xs:boolean', 'xs:token', 'xs:QName', 'xs:QName']))
         t = ('list', item)
         cat = ['', '1', '1 2', ' 1  2 ', '1\t2\n3', '1 x', 'true false', '1 2 3 4', '127 128', 'a b', '1,2']
+        if item[1] == 'xs:QName':
+            cat = ['', 'a', 'a b', ' a  b ', 'a b c', 'a b c d', 'x y z w v']      # unprefixed names only
         if rng.random() < 0.6:
             t = ('restrict', t, 'Collapse', [(rng.choice(['length', 'minLength', 'maxLength']), rng.choice([0, 1, 2, 3]))])
         return t, cat
@@ -452,7 +457,7 @@ def gen(ctx):
             cases.append({'type': ('builtin', name), 'version': version, 'texts': texts})
     for i in range(120 if q else 3000):
         t, cat = rand_restriction(rng)
-        texts = list(cat) + [mutate(rng, rng.choice(cat)) for _ in range(4)]
+        texts = list(cat) + ([mutate(rng, rng.choice(cat)) for _ in range(4)] if 'xs:QName' not in json.dumps(t) else [])
         cases.append({'type': t, 'version': '1.1' if i % 2 else '1.0', 'texts': texts})
     return cases
 
